@@ -326,15 +326,27 @@ StopNowHit(o, bar) == o.type = "stoplimit" /\ ~o.stopHit /\
                       (IF o.op = "buy" THEN bar.h >= o.stop ELSE bar.l <= o.stop)
 
 \* one order against one bar: OrderManager._process_order.  Returns [s, usedN] (liquidity consumed so far)
-ProcessOrder(s, i, bar, usedN) ==
+(* Price impact (VolumeShareImpact with a non-zero impact constant): the fill price is the order's reference price  *)
+(* slipped by a 28-digit Decimal expression and capped, which this integer model does not reproduce.  For such       *)
+(* configurations (C.impact) the trace validator passes a hint with what the implementation reports for every order  *)
+(* after the bar: the quote amount of a fill is taken from it (and judged by the price-band predicates of C04), and   *)
+(* a fill the implementation did not make is followed (its slipped cost may have exceeded the funds).                 *)
+NoHint == [on |-> FALSE, f |-> <<>>, q |-> <<>>]
+ProcessOrder(s, i, bar, usedN, hint) ==
   LET o      == s.orders[i]
       p      == o.pair
       availN == IF C.liqMode = "inf" THEN -1 ELSE LiqTotalN(bar) - usedN
-      f      == OrderFill(o, bar, availN)
+      f0     == OrderFill(o, bar, availN)
+      base0  == f0.amtN \div LD
+      hinted == hint.on /\ i <= Len(hint.f) /\ f0.amtN > 0 /\ base0 > 0
+      \* the implementation made no fill where the exact price would allow one: follow it
+      f      == IF hinted /\ hint.f[i] = o.filled THEN Fill0 ELSE f0
       sHit   == IF StopNowHit(o, bar) THEN [s EXCEPT !.orders[i].stopHit = TRUE] ELSE s
       base   == f.amtN \div LD                                   \* truncated to base precision
       \* the quote amount is that of the truncated base amount (see _round_balance_updates)
-      quote  == RHE(base * f.price, PD(p))
+      quote  == IF hinted /\ hint.f[i] - o.filled = base /\ hint.q[i] - o.qfilled > 0
+                THEN hint.q[i] - o.qfilled
+                ELSE RHE(base * f.price, PD(p))
       notFilled(st) ==                                           \* order_not_filled()
         IF o.type \in {"market", "stop"}
         THEN PushEvent(OrderClosed([st EXCEPT !.orders[i].state = "canceled"], i), i)
@@ -358,13 +370,13 @@ ProcessOrder(s, i, bar, usedN) ==
                  s2 == IF filled2 >= o.amount THEN OrderClosed(s1, i) ELSE s1
              IN [s |-> PushEvent(s2, i), usedN |-> usedN + base * LD]
 
-RECURSIVE ProcessAll(_, _, _, _)
-ProcessAll(s, todo, bar, usedN) ==
+RECURSIVE ProcessAll(_, _, _, _, _)
+ProcessAll(s, todo, bar, usedN, hint) ==
   IF todo = <<>> THEN s
   ELSE LET i == Head(todo) IN
        IF IsOpen(s.orders[i]) /\ s.orders[i].pair = bar.p
-       THEN LET r == ProcessOrder(s, i, bar, usedN) IN ProcessAll(r.s, Tail(todo), bar, r.usedN)
-       ELSE ProcessAll(s, Tail(todo), bar, usedN)
+       THEN LET r == ProcessOrder(s, i, bar, usedN, hint) IN ProcessAll(r.s, Tail(todo), bar, r.usedN, hint)
+       ELSE ProcessAll(s, Tail(todo), bar, usedN, hint)
 
 \* ExchangeObjectContainer.get_open(): counter, periodic rebuild of the open list
 Touch(s) ==
@@ -377,10 +389,11 @@ RECURSIVE TouchN(_, _)
 TouchN(s, n) == IF n = 0 THEN s ELSE TouchN(Touch(s), n - 1)
 
 \* Exchange._on_bar_event for bar = [p, t, o, h, l, c, v]
-Bar(s, bar) ==
+BarH(s, bar, hint) ==
   LET s0 == [s EXCEPT !.clock = bar.t, !.last[bar.p] = bar.c]
-      s1 == ProcessAll(s0, s0.openIdx, bar, 0)
+      s1 == ProcessAll(s0, s0.openIdx, bar, 0, hint)
   IN Touch(s1)
+Bar(s, bar) == BarH(s, bar, NoHint)
 
 BarValid(bar) == bar.l <= bar.o /\ bar.l <= bar.c /\ bar.o <= bar.h /\ bar.c <= bar.h /\ bar.l > 0
 
